@@ -278,6 +278,7 @@ func isCompareAddr(p *Program, f *ssa.Function) bool {
 // datagrams/connections of every earlier socket would be stamped with the last port's address and findService would
 // hand them to another port's services.
 func c08ListenerOwnVariables(c *Ctx) {
+	c.Explanation += " Goroutines started in loops of the listeners/server capture no variable that is assigned again after the go statement without passing its declaration (shared loop variable under the module language version)."
 	p := c.P
 	n := 0
 	for _, fn := range p.FuncsIn("listener", "server") {
